@@ -1,26 +1,24 @@
 #!/bin/bash
-# usage: seedrun.sh [ids...]   runs the quick check of every claimed property against each seeded change
-# (applied to /repo, undone straight afterwards) and prints which checks catch it.
+# usage: seedrun.sh [ids...]   runs the quick check of every claimed property against each seeded change and prints
+# which checks catch it. Each change is applied to a scratch export of /repo's HEAD under /tmp (removed afterwards),
+# so /repo itself is never modified and several checks can run in parallel.
 set -u
+export GOFLAGS=-mod=mod GOPROXY=off GOSUMDB=off GOTOOLCHAIN=local GOWORK=off
 cd /verif
-if [ -n "$(git -C /repo status --porcelain)" ]; then echo "/repo is dirty"; exit 2; fi
 props=$(python3 -c "import json;print(' '.join(c['property_id'] for c in json.load(open('/verif/MANIFEST.json'))['checks']))")
 ids=${*:-$(ls /verif/seeded | grep -v RESULTS)}
 for id in $ids; do
   d=/verif/seeded/$id
   [ -f $d/patch.diff ] || continue
-  if ! git -C /repo apply --check $d/patch.diff 2>/dev/null; then echo "$id: patch does not apply"; continue; fi
-  git -C /repo apply $d/patch.diff
-  caught=""
-  for p in $props; do
-    out=$(VERIF_NOEVIDENCE=1 bin/verifchk -prop $p -repo /repo -verif /verif -nofixture -noevidence 2>&1)
-    if echo "$out" | grep -q "^VIOLATION"; then
-      rules=$(echo "$out" | grep -B1 "^VIOLATION" | grep -v "^VIOLATION\|^--" | awk '{print $1}' | sort -u | tr '\n' ',' )
-      caught="$caught $p[$rules]"
-    fi
-  done
-  git -C /repo checkout -- .
+  tmp=/tmp/seedrun-$id-$$
+  rm -rf $tmp; mkdir -p $tmp
+  git -C /repo archive HEAD | tar -x -C $tmp --exclude='testdata' --exclude='docs' --exclude='playground' 2>/dev/null
+  if ! (cd $tmp && git apply --whitespace=nowarn $d/patch.diff 2>/dev/null); then
+    if ! (cd $tmp && patch -p1 -s < $d/patch.diff >/dev/null 2>&1); then echo "$id: patch does not apply"; rm -rf $tmp; continue; fi
+  fi
+  res=$(echo $props | tr ' ' '\n' | xargs -P 10 -I{} sh -c "out=\$(/verif/bin/verifchk -prop {} -repo $tmp -verif /verif -nofixture -noevidence 2>&1); if echo \"\$out\" | grep -q '^VIOLATION'; then rules=\$(echo \"\$out\" | grep -B1 '^VIOLATION' | grep -v '^VIOLATION\|^--' | awk '{print \$1}' | sort -u | tr '\n' ','); echo \"{}[\$rules]\"; fi" | sort | tr '\n' ' ')
+  rm -rf $tmp
   own=${id%%-*}
-  if echo "$caught" | grep -q "$own\["; then st="CAUGHT-BY-OWN"; elif [ -n "$caught" ]; then st="CAUGHT-BY-OTHER"; else st="MISSED"; fi
-  echo "$id: $st $caught"
+  if echo "$res" | grep -q "$own\["; then st="CAUGHT-BY-OWN"; elif [ -n "$res" ]; then st="CAUGHT-BY-OTHER"; else st="MISSED"; fi
+  echo "$id: $st $res"
 done
